@@ -162,7 +162,11 @@ func (a *analysis) translate(key string) (string, []string) {
 	if strings.Contains(body, "MISSING_RETURN") {
 		body = strings.ReplaceAll(body, "MISSING_RETURN", f.bad("missing return"))
 	}
-	return head + " :=\n  " + body + ".\n\n", f.problems
+	note := ""
+	for _, sk := range f.skipped {
+		note += "(* NOT TRANSLATED in " + fi.key + ": " + sk + " — tied by correspondence only *)\n"
+	}
+	return note + head + " :=\n  " + body + ".\n\n", f.problems
 }
 
 func assignsIdent(b *ast.BlockStmt, name string) bool {
